@@ -274,7 +274,7 @@ func scenarioC14(rc *RunCtx) {
 	rc.Nontriv = len(r.invs) > 0 && nG >= 1
 	rc.Key = MixSeed(h, HashString(rc.Sample))
 	if wall > 20*time.Second {
-		rc.V(viol("harness", "slow-run", "run took %v", wall))
+		rc.Inc("slow_runs") // real time is not part of any verdict
 	}
 
 	// R1: no data race with a rapid frame
